@@ -614,20 +614,27 @@ def run(ctx):
         return tlc.run(MODULE, cfg, defs=defs, coverage=True)
 
     def tlc_deep():
-        # model checking only (no emission): longer sequences, both generators, every public call
+        # model checking only (no emission): every public call, both generators, large alphabet
         cfg, defs = model(gens=(1, 3, 1000, 100000), skips=(1, 2, 99999), big=(1, 1000), shapes=((2,), (2, 3), ()),
-                          shape0=((), (3,)), warm=(0, 999), maxlen=6 if thorough else 4, maxgens=2, gendef=True,
+                          shape0=((), (3,)), warm=(0, 999), maxlen=5 if thorough else 4, maxgens=2, gendef=True,
                           emit=False)
         return tlc.run(MODULE, cfg, defs=defs, coverage=True, workers=4)
+
+    def tlc_long():
+        # model checking only: long request sequences over the replay alphabet (all 6^k orders, k <= 12 / 8)
+        cfg, defs = model(warm=(0, 999), maxlen=12 if thorough else 8, emit=False)
+        return tlc.run(MODULE, cfg, defs=defs, workers=4)
 
     from . import c14_trace
     with ThreadPoolExecutor(tlc_par()) as ex:
         futs = {n: ex.submit(tlc_cfg, n) for n in cf}
         deep = ex.submit(tlc_deep)
+        long_ = ex.submit(tlc_long)
         devf = ex.submit(model_devs, ctx)
         runs = {n: f.result() for n, f in futs.items()}
         devf.result()
-        ctx.account(deep.result(), MODULE, "deep (model only)")
+        ctx.account(deep.result(), MODULE, "deep (model only: 14-request alphabet, 2 generators)")
+        ctx.account(long_.result(), MODULE, "long (model only: sequences up to 12 / 8 requests)")
     ctx.notes["wall_tlc_s"] = round(time.time() - ctx.t0, 1)
     ctx.require_actions(["Construct", "DoGenerate", "DoGenDefault", "DoSkip", "DoSkipBig", "DoSetShape", "DoSimilar"])
     work = [explore(ctx, n, runs[n], cf[n][1], cf[n][2], cf[n][3]) for n in cf]
@@ -653,6 +660,21 @@ def run(ctx):
     traces = c14_trace.record(ctx)
     ctx.notes["wall_recorded_s"] = round(time.time() - ctx.t0, 1)
     c14_trace.validate(ctx, traces)
+    spread(ctx)
+
+
+def spread(ctx):
+    """only the first few violations get replay files: interleave the different kinds of mismatch"""
+    groups = {}
+    for v in ctx.violations:
+        w = v["what"]
+        groups.setdefault(w[:w.index("]") + 1] if w.startswith("[") and "]" in w else "", []).append(v)
+    out = []
+    while any(groups.values()):
+        for k in list(groups):
+            if groups[k]:
+                out.append(groups[k].pop(0))
+    ctx.violations[:] = out
 
 
 def replay(ctx, data):
